@@ -40,6 +40,27 @@ def run(ctx):
                 except Break as b:
                     ctx.breaks.append(b)
     if ok_go:
+        # concurrent overlapping multi-puts: some order of the puts must explain the final state
+        tr2 = os.path.join(ctx.scratch, "kvsconc.txt")
+        rc, err = ctx.harness(["kvsconc", "-seed", str(ctx.seed), "-rounds", "6000" if ctx.tier == "thorough" else "800"], tr2)
+        if rc != 0:
+            ctx.breaks.append(Break("correspondence", "harness kvsconc failed to run", err[-2000:]))
+        else:
+            cl = open(tr2).read().splitlines()
+            ctx.cov["concurrent_rounds"] = len([l for l in cl if l.startswith("kround")])
+            for l in cl:
+                if l.startswith("# ORACLE C18 "):
+                    ctx.add_violation(l.split()[3], l[:400], {"how": "harness kvsconc -seed %d" % ctx.seed, "line": l[:1000]})
+            if ok_drv:
+                try:
+                    n, mism, _ = ctx.driver("kvs", tr2)
+                    ctx.cov["evaluations"] += n
+                    if mism:
+                        ctx.breaks.append(Break("correspondence", "a concurrent round of MultiPuts is not linearizable", "\n".join(mism[:5])))
+                        m = mism[0].split(" :: ")
+                        ctx.add_violation("kvs-concurrent:not-linearizable", m[0][:300], {"how": "harness kvsconc -seed %d; drv kvs" % ctx.seed, "round": m[-1][:1500]})
+                except Break as b:
+                    ctx.breaks.append(b)
         crashlib.run_small(ctx, ok_drv, "crashkv", "C18", ["-workloads", "12", "-ops", "60", "-images", "1000"] if ctx.tier == "thorough" else ["-workloads", "4", "-ops", "40", "-images", "300"])
     vlib.finish(
         ctx, "proof",
@@ -49,5 +70,5 @@ def run(ctx):
         "sequences of MultiPut (1..64 pairs, overlapping keys, duplicates inside one put; 511, 512 and 600 distinct blocks) and Get over keys at LOGSIZE-1, LOGSIZE, sz-1, sz, "
         "sz+1, 0, 2^40 and random; every result (value / refused / panic) compared",
         ["values are whole blocks identified by a fill byte and a counter"],
-        pending=["multiput_linearizable for concurrent callers"],
-        partial=["crash atomicity/durability: theorems of C01 on the WAL model + recorded-trace validation + prefix-state oracle (all pairs of a put or none; acknowledged puts survive) on sampled crash images, recovered by kvs.MkKVS"])
+        pending=[],
+        partial=["concurrent callers: rounds of 2-4 overlapping MultiPuts (values from a three-letter alphabet, so puts often rewrite what is there) must be explained by some order of the puts applied by the model — sampled schedules, not a theorem", "crash atomicity/durability: theorems of C01 on the WAL model + recorded-trace validation + prefix-state oracle (all pairs of a put or none; acknowledged puts survive) on sampled crash images, recovered by kvs.MkKVS"])
